@@ -103,13 +103,17 @@ pub struct Renderer<'a> {
     eol: &'static str,
     indent: bool,
     depth: usize,
+    /// split the main block into several top-level blocks
+    paragraphs: bool,
 }
 
 pub fn render(script: &Script, style_seed: u64) -> String {
     let mut st = Styler::new(style_seed);
     let eol = if st.pick(8) == 7 { "\r\n" } else { "\n" };
     let indent = st.pick(3) == 2;
+    let paragraphs = st.pick(3) == 1;
     let mut r = Renderer {
+        paragraphs,
         script,
         st,
         out: String::new(),
@@ -356,7 +360,12 @@ impl<'a> Renderer<'a> {
     }
 
     fn block(&mut self, ops: &[Op]) {
-        for op in ops {
+        for (i, op) in ops.iter().enumerate() {
+            // at top level a blank line starts a new top-level block
+            // (paragraph); the meaning of the program does not change
+            if i > 0 && self.depth == 0 && self.paragraphs && self.st.pick(3) == 0 {
+                self.blank();
+            }
             self.op(op);
         }
     }
